@@ -366,7 +366,8 @@ func (s *verSys) apply(op engine.Op) (string, *engine.Violation) {
 		}
 		pre := s.m.Keys[o.k]
 		r := s.w.Do(drv.Req{Method: "DELETE", Path: "/" + s.bucket + "/" + o.k, Query: drv.Q("versionId", id)})
-		if r.Status != 204 || r.Panic != "" {
+		unknownOK := o.idx < 0 && r.Panic == "" && r.Status == 404 // an id that never existed: 204 or 404 are both fine
+		if (r.Status != 204 && !unknownOK) || r.Panic != "" {
 			return respSig(r), s.verBad("delver", "status", "-", "delete-version %s answered %s", o.k, r.Short())
 		}
 		s.m.DeleteVersion(o.k, id)
